@@ -169,18 +169,19 @@ class SlottedHost:
 class TxSpy:
     """records what the device transmits in the current slot (tx_ready = 1): first byte, byte count, first bytes"""
 
-    def __init__(self, m, domain, host, tx_valid, tx_data, nbytes=11, name="txspy"):
+    def __init__(self, m, domain, host, tx_valid, tx_data, nbytes=11, name="txspy", tx_ready=None):
+        tx_active = tx_valid
+        if tx_ready is not None:
+            tx_valid = tx_valid & tx_ready       # count accepted bytes only
         self.pid = Signal(8, name=f"{name}_pid")
         self.count = Signal(range(nbytes + 2), name=f"{name}_count")
         self.bytes = [Signal(8, name=f"{name}_b{i}") for i in range(nbytes)]
         self.packets = Signal(2, name=f"{name}_packets")     # transmissions started in this slot (saturating)
         prev = Signal(name=f"{name}_prev")
-        m.d[domain] += prev.eq(tx_valid)
+        m.d[domain] += prev.eq(tx_active)
         with m.If(host.slot_end):
             m.d[domain] += [self.count.eq(0), self.packets.eq(0), self.pid.eq(0)]
         with m.Elif(tx_valid):
-            with m.If(~prev & (self.packets != 3)):
-                m.d[domain] += self.packets.eq(self.packets + 1)
             with m.If(self.count <= nbytes):
                 m.d[domain] += self.count.eq(self.count + 1)
             with m.If(self.count == 0):
@@ -188,5 +189,7 @@ class TxSpy:
             for i in range(nbytes):
                 with m.If(self.count == i + 1):
                     m.d[domain] += self.bytes[i].eq(tx_data)
+        with m.If(~host.slot_end & tx_active & ~prev & (self.packets != 3)):
+            m.d[domain] += self.packets.eq(self.packets + 1)
         self.is_data = (self.count != 0) & (self.pid[0:2] == 0b11)
         self.is_hsk = (self.count != 0) & (self.pid[0:2] == 0b10)
